@@ -12,6 +12,7 @@ CNext == \/ \E e \in U : \/ Add(e) /\ Rec("add", e)
                          \/ RemoveAbsent(e) /\ Rec("remove", e)
          \/ \E i \in 1..Len(edges) : Draw(i) /\ Rec("draw", i - 1)
          \/ Observe /\ Rec("observe", 0)
+         \/ AddUnhashable /\ Rec("addbad", 1)
 CSpec == CInit /\ [][CNext]_<<vars, hist>>
 Bound == Len(hist) <= D
 Emit == (Len(hist) = D) => PrintT("CASE " \o ToJson(hist))
